@@ -134,8 +134,8 @@ def case_strategy(weights, max_ops=40):
 # selector operand advancing, so that e.g. "delete" walks over the entities), or the whole history is repeated.
 # Sizes straddle the round numbers at which implementations change strategy (64, 128, 256, 1024).  The shrinker
 # lowers the size (and the rest of the case) as usual.
-AMP_SIZES = {120: ('each', 70), 121: ('each', 70), 122: ('each', 150), 123: ('op', 70), 124: ('op', 300),
-             125: ('op', 1100), 126: ('all', 70), 127: ('all', 420)}
+AMP_SIZES = {118: ('each', 70), 119: ('each', 70), 120: ('each', 70), 121: ('each', 70), 122: ('each', 150),
+             123: ('op', 70), 124: ('op', 300), 125: ('op', 1100), 126: ('all', 70), 127: ('all', 420)}
 AMP_MAX_STEPS = {70: 500, 420: 1300}
 AMP_EACH_CAP = 1000
 
@@ -171,8 +171,9 @@ def _repeat(o, times):
 def expand_ops(ops, amp, prefer=()):
     """-> (expanded op list, amplified?)  ``prefer``: op names worth repeating (chosen first when present).
 
-    'op': one operation repeated in place; 'each': every operation that has operands repeated in place (create x k,
-    delete x k, process - many entities pending at one frame); 'all': the whole history repeated."""
+    'op': one operation repeated in place; 'each': every operation with operands inside a window of six operations
+    repeated in place (create x k, delete x k, process - many entities pending at one frame); 'all': the whole
+    history repeated."""
     if not amp or not amp[0] or not ops:
         return list(ops), False
     kind, b, size = amp
@@ -180,11 +181,11 @@ def expand_ops(ops, amp, prefer=()):
         r = max(1, min(size, AMP_MAX_STEPS.get(size, 1400) // len(ops)))
         return [list(o) for _ in range(r) for o in ops], True
     if kind == 'each':
-        rep = [i for i, o in enumerate(ops) if len(o) > 1]
-        k = max(1, min(size, AMP_EACH_CAP // max(1, len(rep))))
+        # every operation that has operands inside a window of six consecutive operations is repeated in place
+        lo = b % len(ops)
         out = []
-        for o in ops:
-            out.extend(_repeat(o, k) if len(o) > 1 else [list(o)])
+        for j, o in enumerate(ops):
+            out.extend(_repeat(o, size) if (len(o) > 1 and lo <= j < lo + 6) else [list(o)])
         return out, True
     idx = [i for i, o in enumerate(ops) if o[0] in prefer] or list(range(len(ops)))
     i = idx[b % len(idx)]
@@ -612,7 +613,7 @@ class Run:
         self.flags['armed'] += 1
 
     def react(self, comp, kind, args, action, ent_sel, cls_sel):
-        if kind != 'on_remove' or not self.in_process:
+        if kind != 'on_remove' or not self.in_process or self.no_react:
             return                      # stays armed
         del comp.__dict__['_react']
         me = args[0] if args else None
@@ -911,6 +912,33 @@ class Run:
                     raise
                 except Exception as exc:
                     self.viol('world_keeps_failing_after_a_failed_process', frames_later=k + 1, exception=repr(exc))
+            # ... and whoever still exists can be deleted like any other entity ("process() completes for every
+            # history in which each deleted entity existed when delete_entity was called")
+            victims = [e for e in self.known_ids if self.q(w.get_components, e)]
+            for e in victims:
+                try:
+                    w.delete_entity(e)
+                except PropertyViolation:
+                    raise
+                except Exception as exc:
+                    self.viol('delete_entity_raised_for_an_existing_entity', entity=repr(e), exception=repr(exc))
+            if victims:
+                self.no_react = True
+                try:
+                    self.in_process = True
+                    try:
+                        with_budget(PROCESS_BUDGET, w.process, 1)
+                    finally:
+                        self.in_process = False
+                        self.no_react = False
+                except PropertyViolation:
+                    raise
+                except StepBudgetExceeded as exc:
+                    self.viol('process_does_not_terminate', error=str(exc), after='a callback raised in process()')
+                except Exception as exc:
+                    self.viol('process_raised_although_every_deleted_entity_existed', exception=repr(exc),
+                              after='a frame that failed because a callback raised', deleted=[repr(e) for e in victims])
+                self.flags['everything_deleted_after_a_failed_frame'] += 1
             ids = list(self.known_ids) + NEVER_USED
             try:
                 for T in self.classes:
